@@ -227,6 +227,10 @@ TMove ==
           \/ /\ "holder" \notin chk /\ cl.op = "maint" /\ holder[i] # NoC /\ holder[i] \notin dead
              /\ \E pl \in Cats : ReturnHeld(holder[i], i, pl)
              /\ UNCHANGED <<calls, taint>>
+          \* C14: settling one message (ack / nack / reject / requeue) never takes another one away from its holder (clause `holder')
+          \/ /\ "holder" \notin chk /\ cl.op \in {"ack", "nack", "reject", "requeue"} /\ cl.i # i /\ holder[i] # NoC /\ loc[i] = U("p")
+             /\ \E pl \in Cats : ReturnHeld(holder[i], i, pl)
+             /\ UNCHANGED <<calls, taint>>
           \* C14: finish() of a consumer returns its own messages only (clause `holder')
           \/ /\ "holder" \notin chk /\ cl.op = "finish" /\ holder[i] # NoC /\ holder[i] # cl.c /\ loc[i] = U("p")
              /\ \E pl \in Cats : ReturnHeld(holder[i], i, pl)
